@@ -52,6 +52,9 @@ pub struct Profile {
     /// Probability (x/100) of the "serial retry storm" shape: every serial scenario fails its first
     /// attempt and is retried after a delay, concurrent scenarios are held at gates.
     pub p_focus_serial_retry: u32,
+    /// Probability (x/1000) of the "wide" shape: one feature with 66..73 one-step scenarios held
+    /// at gates, default / Some(64) limit: the only shape in which the default limit of 64 binds.
+    pub p_wide: u32,
 }
 
 impl Default for Profile {
@@ -88,6 +91,7 @@ impl Default for Profile {
             exclude_lazy_parser: false,
             exclude_serial_late: false,
             p_focus_serial_retry: 0,
+            p_wide: 0,
         }
     }
 }
@@ -283,7 +287,57 @@ fn retry_tag(t: &mut Tape, with_delay: bool) -> String {
     }
 }
 
+fn gen_wide_case(t: &mut Tape) -> RCase {
+    let nsc = 66 + t.pick(8);
+    let mut plan: HashMap<String, Vec<PlanEntry>> = HashMap::new();
+    let mut scs = vec![];
+    let mut scenarios = vec![];
+    for i in 0..nsc {
+        let name = format!("F0.S{i}");
+        let line = 2 + 3 * i;
+        let st = mkstep(format!("ok {name}.0"), line + 1, 0);
+        plan.insert(format!("step:{}", st.value), vec![PlanEntry { oc: Oc::Pass, gates: 1 }; 2]);
+        scenarios.push(ScInfo { name: name.clone(), feature: "F0".into(), feature_idx: 0, rule: None, line, steps: vec![step_info(false, &st)], serial: false, retry: None, allow_skipped: false });
+        scs.push(mkscenario(name, vec![st], vec![], line));
+    }
+    let feature = gherkin::Feature {
+        keyword: "Feature".into(),
+        name: "F0".into(),
+        description: None,
+        background: None,
+        scenarios: scs,
+        rules: vec![],
+        tags: vec![],
+        span: gherkin::Span::default(),
+        position: gherkin::LineCol { line: 1, col: 1 },
+        path: Some("/vt/wide.feature".into()),
+    };
+    RCase {
+        items: vec![ParserItem { gates: 0, item: Item::Feature(feature) }],
+        end_gates: 0,
+        lazy: false,
+        before: false,
+        after: false,
+        conc_builder: Some(64),
+        conc_builder_set: t.chance(1, 2),
+        conc_cli: None,
+        fail_fast_builder: false,
+        fail_fast_cli: false,
+        retry_closure: Some(HashMap::new()),
+        retry_builder: RetryCfg::default(),
+        retry_cli: RetryCfg::default(),
+        custom_classifier: false,
+        plan,
+        wn_plan: vec![(WnOc::Ok, 0); 80],
+        scenarios,
+        excluded: 0,
+    }
+}
+
 pub fn gen_case(t: &mut Tape, p: &Profile) -> RCase {
+    if p.p_wide > 0 && t.rare(p.p_wide, 1000) {
+        return gen_wide_case(t);
+    }
     let mut excluded = 0u64;
     let focus = pct(t, p.p_focus_serial_retry);
     let before = pct(t, p.p_before);
